@@ -149,76 +149,117 @@ def idToken (l : List UInt8) : Option (List UInt8) :=
 /-- the bytes up to the first line feed -/
 def firstLine (bytes : List UInt8) : List UInt8 := bytes.takeWhile (· != 10)
 
+/-- the lines of a module info, as `LineBuffer::consume` / `finish` (breakpad/index.rs:713-752) cut them: pieces between
+line feeds (a trailing empty piece is never handed on by the code; it parses as nothing here) -/
+def splitLines : List UInt8 → List (List UInt8)
+  | [] => [[]]
+  | b :: r =>
+    if b == 10 then [] :: splitLines r
+    else match splitLines r with
+      | l :: ls => (b :: l) :: ls
+      | [] => [[b]]
+
 /-- A Breakpad `.sym` candidate: `head` = the bytes of the file (any prefix that contains its first line will do);
-`side` = the `.symindex` at `location_for_breakpad_symindex()`: `.ok info` = `BreakpadIndex::parse_symindex_file`
-succeeds and `info` is its `module_info_bytes`; `.unreadable` = no such location / `load_file` fails (lib.rs:613-620);
-`.unparsable` = it does not parse. -/
+`side` = the `.symindex` at `location_for_breakpad_symindex()`: `.ok info` = the file has the `SYMINDEX` header and
+well-formed tables and `info` is its `module_info_bytes` (whether `parse_symindex_file` then succeeds depends on `info`, see
+`sideReported`); `.unreadable` = no such location / `load_file` fails (lib.rs:613-620); `.unparsable` = header or tables are
+broken. -/
 structure BpCand where
   head : List UInt8
   side : Load (List UInt8)
 deriving Repr
 
-/-- symbol_map.rs:66-84 (since fix 3f61c23c): a parsable sidecar is used only if the first line of its module info
-is non-empty and equals the first bytes of the `.sym` file (`read_bytes_at(0, len)` succeeds and compares equal) -/
-def BpCand.sidecarUsed (c : BpCand) : Bool :=
+section
+variable {ι : Type} (parseId : List UInt8 → Option (DebugId ι)) (utf8 : List UInt8 → Bool)
+
+/-- `module_line` / `debug_id_of_module_line` (breakpad/index.rs:906-925) on one line: the tokens must be there, the id token
+must be a Breakpad id (`parseId` = `DebugId::from_breakpad`), and os, cpu and name must be UTF-8 — the separators, the tag
+and the id token are ASCII, so that is the same as the whole line being UTF-8 (`utf8` = `str::from_utf8(..).is_ok()`). -/
+def lineId (line : List UInt8) : Option (DebugId ι) :=
+  if utf8 line then (idToken line).bind parseId else none
+
+/-- `BreakpadIndex::parse_symindex_file` (index.rs:57-95): the id of the index is that of the LAST line of the module info
+that parses as a MODULE record; `none` = `CouldntParseModuleInfoLine` -/
+def moduleInfoId (info : List UInt8) : Option (DebugId ι) :=
+  (splitLines info).foldl (fun acc l => match lineId parseId utf8 l with | some d => some d | none => acc) none
+
+/-- the id a parsable sidecar reports (`index.debug_id`) -/
+def BpCand.sideReported (c : BpCand) : Option (DebugId ι) :=
   match c.side with
-  | .ok info =>
+  | .ok info => moduleInfoId parseId utf8 info
+  | _ => none
+
+/-- the id stated by the first line of the sidecar's module info (`debug_id_of_module_line(module_line)`) -/
+def BpCand.sideFirstId (c : BpCand) : Option (DebugId ι) :=
+  match c.side with
+  | .ok info => lineId parseId utf8 (firstLine info)
+  | _ => none
+
+/-- symbol_map.rs:66-87 (fixes 3f61c23c + d2664d76): a parsable sidecar is used only if the first line of its module
+info is non-empty, equals the first bytes of the `.sym` file (`read_bytes_at(0, len)` succeeds and compares equal) and states
+the id that the index reports -/
+def BpCand.sidecarUsed [DecidableEq ι] (c : BpCand) : Bool :=
+  match c.side, c.sideReported parseId utf8 with
+  | .ok info, some r =>
     let moduleLine := firstLine info
     !moduleLine.isEmpty && decide (c.head.take moduleLine.length = moduleLine)
-  | _ => false
+      && decide (c.sideFirstId parseId utf8 = some r)
+  | _, _ => false
+
+/-- 3f61c23c only: the first line is compared, the reported id is not -/
+def BpCand.sidecarUsedFirstLineOnly (c : BpCand) : Bool :=
+  match c.side, c.sideReported parseId utf8 with
+  | .ok info, some _ =>
+    let moduleLine := firstLine info
+    !moduleLine.isEmpty && decide (c.head.take moduleLine.length = moduleLine)
+  | _, _ => false
 
 /-- before 3f61c23c: every parsable sidecar was used -/
 def BpCand.sidecarUsedLegacy (c : BpCand) : Bool :=
-  match c.side with
-  | .ok _ => true
-  | _ => false
+  (c.sideReported parseId utf8).isSome
 
-section
-variable {ι : Type} (parseId : List UInt8 → Option (DebugId ι))
-
-/-- the id in the MODULE line of the `.sym` itself (`parseId` = `DebugId::from_breakpad` on the token) -/
+/-- the id in the MODULE line of the `.sym` itself: the build its text belongs to (the token of its first line, whether or
+not the rest of that line is UTF-8) -/
 def BpCand.own (c : BpCand) : Option (DebugId ι) := (idToken (firstLine c.head)).bind parseId
 
-/-- the id a sidecar states -/
-def BpCand.sideId (c : BpCand) : Option (DebugId ι) :=
-  match c.side with
-  | .ok info => (idToken (firstLine info)).bind parseId
-  | _ => none
-
 /-- the id the symbol map reports (symbol_map.rs `debug_id()` = the id of the index in use): the sidecar's if the
-sidecar is used, else that of the index built from the `.sym` itself -/
-def BpCand.reported (c : BpCand) : Option (DebugId ι) :=
-  if c.sidecarUsed then c.sideId parseId else c.own parseId
+sidecar is used, else that of the index `BreakpadIndexCreator` builds from the `.sym` (its first line through `module_line`) -/
+def BpCand.reportedIf (used : Bool) (c : BpCand) : Option (DebugId ι) :=
+  if used then c.sideReported parseId utf8 else lineId parseId utf8 (firstLine c.head)
 
-def BpCand.reportedLegacy (c : BpCand) : Option (DebugId ι) :=
-  if c.sidecarUsedLegacy then c.sideId parseId else c.own parseId
+def BpCand.reported [DecidableEq ι] (c : BpCand) : Option (DebugId ι) :=
+  c.reportedIf parseId utf8 (c.sidecarUsed parseId utf8)
 
 /-- lookups are always served from the text of the `.sym` file (`data: &self.data`), i.e. from build `own` -/
 def BpCand.content (c : BpCand) : Option (DebugId ι) := c.own parseId
 
-def BpCand.toCandidate (c : BpCand) : Candidate ι (SymInfo ι) :=
-  match c.reported parseId with
+def BpCand.toCandidateOf (r : Option (DebugId ι)) : Candidate ι (SymInfo ι) :=
+  match r with
   | some d => .single (.ok ⟨d⟩)
   | none => .single .unparsable          -- no MODULE line: `BreakpadIndexCreator::finish` fails
 
-def BpCand.toCandidateLegacy (c : BpCand) : Candidate ι (SymInfo ι) :=
-  match c.reportedLegacy parseId with
-  | some d => .single (.ok ⟨d⟩)
-  | none => .single .unparsable
+/-- `load_symbol_map` over Breakpad candidates with sidecars under a given "is the sidecar used" rule: the outcome of
+`loadSymbolMap` plus the build whose text serves the lookups -/
+def loadSymbolMapBpBy [DecidableEq ι] (usedRule : BpCand → Bool) (native : List ι) (req : Option (DebugId ι))
+    (cs : List BpCand) : SymOut ι × Option (DebugId ι) :=
+  match loadSymbolMap native req (cs.map fun c => BpCand.toCandidateOf (c.reportedIf parseId utf8 (usedRule c))) with
+  | .ok k m => (.ok k m, (cs[k]?).bind (BpCand.content parseId))
+  | out => (out, none)
 
-/-- `load_symbol_map` over Breakpad candidates with sidecars: the outcome of `loadSymbolMap` plus the build whose
-text serves the lookups -/
+/-- the code as it is -/
 def loadSymbolMapBp [DecidableEq ι] (native : List ι) (req : Option (DebugId ι)) (cs : List BpCand) :
     SymOut ι × Option (DebugId ι) :=
-  match loadSymbolMap native req (cs.map (BpCand.toCandidate parseId)) with
-  | .ok k m => (.ok k m, (cs[k]?).bind (BpCand.content parseId))
-  | out => (out, none)
+  loadSymbolMapBpBy parseId utf8 (BpCand.sidecarUsed parseId utf8) native req cs
 
+/-- before 3f61c23c -/
 def loadSymbolMapBpLegacy [DecidableEq ι] (native : List ι) (req : Option (DebugId ι)) (cs : List BpCand) :
     SymOut ι × Option (DebugId ι) :=
-  match loadSymbolMap native req (cs.map (BpCand.toCandidateLegacy parseId)) with
-  | .ok k m => (.ok k m, (cs[k]?).bind (BpCand.content parseId))
-  | out => (out, none)
+  loadSymbolMapBpBy parseId utf8 (BpCand.sidecarUsedLegacy parseId utf8) native req cs
+
+/-- between 3f61c23c and d2664d76 -/
+def loadSymbolMapBpFirstLineOnly [DecidableEq ι] (native : List ι) (req : Option (DebugId ι)) (cs : List BpCand) :
+    SymOut ι × Option (DebugId ι) :=
+  loadSymbolMapBpBy parseId utf8 (BpCand.sidecarUsedFirstLineOnly parseId utf8) native req cs
 end
 
 /-! ### dyld shared cache entry points -/
